@@ -14,7 +14,7 @@ def run(ctx):
     ctx.log('TLC: %d states, %d operation histories' % (res.distinct, len(seqs)))
     rnd = random.Random(ctx.seed)
     kinds = ['rock', 'ufs', 'aufs']
-    per = 40 if ctx.thorough else 7
+    per = 40 if ctx.thorough else 5
     out = []
 
     async def main():
@@ -25,7 +25,7 @@ def run(ctx):
             for ops in seqs[:per]:
                 n += 1
                 coros.append(diskrun.run_history(ctx, tree, kind, ops, n, random.Random(ctx.seed * 100003 + n), stop='clean'))
-        return await escen.gather_limited(coros, limit=4)
+        return await escen.gather_limited(coros, limit=6)
     out = asyncio.run(main())
     rej = escen.validate(ctx, os.path.join(SPEC, 'Trace_Restart.tla'), os.path.join(SPEC, 'Trace_Restart.cfg'), [{'ev': diskrun.fill(o['ev'])} for o in out], 'restart')
     ctx.log('realised %d histories on %s; P-rejected %d' % (len(out), kinds, len(rej)))
